@@ -205,6 +205,9 @@ RULES = [
     ("C12-R1", "text columns: glob / LIKE escape tables [shared with C12]", lambda ctx: __import__("c12").r1(ctx)),
     ("C12-R3", "text columns: negative operators are complements [shared with C12]", lambda ctx: __import__("c12").r3(ctx)),
     ("C12-R4", "text columns: operator -> translator dispatch [shared with C12]", lambda ctx: __import__("c12").r4(ctx)),
+    ("X-LITERAL", "a literal is never answered from the text-keyed per-entry memo [shared]", lambda ctx: __import__("extra").literal_before_memo(ctx)),
+    ("X-PHASES", "clause order and phase flags of Parser::parse; WHERE shorthand window [shared]", lambda ctx: __import__("extra").parser_phases(ctx)),
+    ("X-VARIANT", "Variant constructors, text renderings and coercion order [shared]", lambda ctx: __import__("extra").variant_constructors(ctx)),
 ]
 
 EXPLANATION = (
@@ -215,7 +218,8 @@ EXPLANATION = (
     "operator; (R4) no Lexem::String (quoted literal) reaches Field::from_str/Function::from_str; (R5) every column "
     "arm of get_field_value returns the documented kind of Variant; (R6) boolean literal table; (R7) both operands "
     "are evaluated on the same entry and the table is chosen by the column's type. Attribute values themselves, "
-    "text matching (see C12) and date intervals (see C13) are decided elsewhere or not at all.")
+    "text matching (see C12) and date intervals (see C13) are decided elsewhere or not at all."
+    ' A literal operand is never answered from the text-keyed per-entry memo; Parser::parse raises the phase flags between the right clauses so the `where is_dir` shorthand applies to WHERE only; Variant constructors store and coerce values through their own slot.')
 ASSUMPTIONS = [
     "rustc's HIR/MIR faithfully represent the source; exporter and rule scripts are correct",
     "Variant::to_int/to_float/to_bool return the value they were constructed with (checked structurally in C14-R3 for literals)",
